@@ -186,4 +186,29 @@ theorem length_add_le (x y : V3 ℝ) : V3.length (V3.add x y) ≤ V3.length x + 
   have h1 := (abs_le.mp (abs_dot_le x y)).2
   nlinarith [length_mul_self x, length_mul_self y]
 
+/-! ### misc -/
+
+theorem length_neg_sub (x y : V3 ℝ) : V3.length (V3.sub x y) = V3.length (V3.sub y x) := by
+  rw [length_def, length_def]; congr 1
+  simp only [dot_def, V3.sub, hsub]; ring
+
+theorem dot_neg_neg (v : V3 ℝ) : V3.dot (V3.neg v) (V3.neg v) = V3.dot v v := by
+  simp only [dot_def, V3.neg, hneg]; ring
+
+theorem dot_normalize_self (w : V3 ℝ) : V3.dot w (V3.normalize w) = V3.length w := by
+  rcases (length_nonneg w).lt_or_eq with h | h
+  · rw [normalize_of_pos h, dot_divs_right, ← length_mul_self, mul_div_assoc, div_self (ne_of_gt h), mul_one]
+  · rw [normalize_of_zero h.symm, ← h, dot_def]; ring
+
+/-- clamping is the nearest-point projection onto an interval -/
+theorem clamp1_closest (z c y : ℝ) (hy1 : -z ≤ y) (hy2 : y ≤ z) :
+    (max (-z) (min z c) - c) * (max (-z) (min z c) - c) ≤ (y - c) * (y - c) := by
+  have hz : -z ≤ z := hy1.trans hy2
+  rcases le_total z c with h | h
+  · rw [min_eq_left h, max_eq_right hz]; nlinarith
+  · rw [min_eq_right h]
+    rcases le_total (-z) c with h' | h'
+    · rw [max_eq_right h']; nlinarith [mul_self_nonneg (y - c)]
+    · rw [max_eq_left h']; nlinarith
+
 end Mjw.C20L
